@@ -406,6 +406,14 @@ func (s *Sim) StartInst(host string, delay time.Duration) *Inst {
 			}
 		}
 		inner, err := dcs.NewZookeeperVerif(ctx, &cfg.Zookeeper, logger, func(network, address string, timeout time.Duration) (net.Conn, error) {
+			if ctx.Err() != nil {
+				// the instance is shutting down: hand the client a dead connection so that its
+				// connect loop (which checks for Close only after a successful dial) can end
+				time.Sleep(5 * time.Millisecond)
+				a, b := net.Pipe()
+				b.Close()
+				return a, nil
+			}
 			c, err := s.ZK.Dial(name)
 			if err != nil {
 				time.Sleep(5 * time.Millisecond) // paces the client's reconnect loop under a virtual clock
